@@ -249,6 +249,7 @@ def run_r2(repo: Repo, res: Result) -> None:
                     raise AnalysisError(f"{entry.fq}: abstract interpretation failed ({type(e).__name__}: {e})") from e
                 objs = [sh for sh in rv if isinstance(sh, Ref) and sh.kind == "obj" and it.cell(sh).ci is not None and it.cell(sh).ci.fq == viol.fq]
                 if not objs:
+                    n += len(fields)
                     res.undecide("C03.R2", f"{entry.relpath}::{cls.name}.{entry.name}::result", f"the abstract evaluation did not produce a RuleViolations object ({'; '.join(it.tops[:2]) or 'no value'})", where(entry, entry.node))
                     continue
                 for o in objs:
@@ -281,6 +282,7 @@ def run_r2(repo: Repo, res: Result) -> None:
                         kind="flow",
                     )
                 elif v["unknown"]:
+                    n += 1
                     res.undecide("C03.R2", construct, f"the orientation of some pairs could not be determined ({'; '.join(sorted({s for _, s in v['unknown'] if s})[:2]) or 'no provenance'})", where(entry, entry.node))
                 elif v["good"]:
                     n += 1
@@ -390,6 +392,8 @@ def run_r3_r4(repo: Repo, res: Result) -> None:
             if tops or not lines_seen or (absent and lost):
                 # something is missing from the abstract report, but the interpreter met constructs it does not model: no verdict
                 res.undecide("C03.R3", f"{head}::report", f"the abstract evaluation of the message generator lost track ({'; '.join(sorted(tops | lost)[:2]) or 'no lines produced'})", where(entry, entry.node))
+                n3 += len(fields) + 2
+                n4 += 2
                 continue
             for f in fields:
                 n3 += 1
@@ -477,6 +481,7 @@ def run_r5(repo: Repo, res: Result) -> None:
             dicts = [sh for sh in out if isinstance(sh, Ref) and sh.kind == "dict"]
             w = it.has_top(out)
             if w or not dicts or not calls or len(dicts) != len([sh for sh in out if not (isinstance(sh, Const) and sh.value is None)]):
+                n += 3
                 res.undecide("C03.R5", f"{head}::result", f"the abstract evaluation of the query lost track ({w or '; '.join(it.tops[:2]) or ('no search call reached' if not calls else 'result is not a dictionary')})", where(impl, impl.node))
                 continue
             pset = set(params)
@@ -513,6 +518,7 @@ def run_r5(repo: Repo, res: Result) -> None:
                         else:
                             extra.append(f"`{norm(c['node'], 80)}`: an argument of kind {type(sh).__name__}{' (' + sh.why + ')' if isinstance(sh, Top) else ''}")
             if not clean and (extra or sorted(pset - used)):
+                n += 3
                 res.undecide("C03.R5", f"{head}::searches", f"the abstract evaluation met constructs it does not model ({'; '.join(it.tops[:2])})", where(impl, impl.node))
                 continue
             n += 1
@@ -557,10 +563,10 @@ def run_r5(repo: Repo, res: Result) -> None:
             if not ok:
                 detail = (f"parameter(s) {missing} never reach a search" if missing else bad_keys[0] if bad_keys else f"not every given module gets a search / an entry of its own: {sorted(set(key_marks))[0]}") + ": a subject/object of the batch gets no judgement of its own"
             res.add("C03.R5", f"{head}::all keys", ok, detail, where(impl, impl.node), kind="flow")
+            n += 1
             if unsure and not bad_vals:
                 res.undecide("C03.R5", f"{head}::result per key", unsure[0], where(impl, impl.node))
                 continue
-            n += 1
             ok = not bad_vals
             res.add("C03.R5", f"{head}::result per key", ok, "the result of each search is stored under its own key" if ok else bad_vals[0], where(impl, impl.node), kind="flow")
     res.floor("C03.R5", 9, n)
@@ -639,6 +645,7 @@ def run_r6(repo: Repo, res: Result) -> None:
             except (RuntimeError, RecursionError, KeyError, AttributeError, TypeError, IndexError, ValueError) as e:
                 raise AnalysisError(f"{entry.fq}: abstract interpretation failed ({type(e).__name__}: {e})") from e
             if not consulted:
+                n += 1
                 res.undecide("C03.R6", f"{head}::second application", f"the abstract evaluation never saw the evaluable being queried ({'; '.join(it.tops[:2]) or 'no call on it'})", where(entry, entry.node))
                 continue
             reads = it.stale_reads
